@@ -99,11 +99,14 @@ Ltac enc_calls :=
     | rewrite go_nth_single by lia ];
     cbv beta iota zeta).
 
+(* helpers the source may have factored out of the functions below (and for which there is no lemma): unfolded *)
+Ltac enc_unfold := autounfold with gotrans; cbv beta iota zeta.
+
 Lemma header_encode_equiv : T_header_encode.
 Proof.
   intros h dst. unfold hdr_encode, hdr_msglen, h_type.
   change (tf h / 16) with (nib_hi (tf h)).
-  unfold go_message_encode. cbv beta iota zeta. enc_calls.
+  unfold go_message_encode. cbv beta iota zeta. enc_calls. enc_unfold. enc_calls.
   unfold maxRemainingLength.
   destruct (length dst <? hdr_msglen_of (remlen h))%nat eqn:E1.
   - (* the destination is too short *)
@@ -127,7 +130,7 @@ Qed.
 Lemma setRemainingLength_equiv : T_SetRemainingLength.
 Proof.
   intros h r. unfold go_message_SetRemainingLength, set_remlen, maxRemainingLength.
-  cbv beta iota zeta.
+  cbv beta iota zeta. enc_unfold.
   destruct (268435455 <? r) eqn:E; go_cases; cbn [dirty remlen]; finish.
 Qed.
 
